@@ -6,6 +6,26 @@ MARK = "\n<!-- PART II GENERATED FROM design_notes/ BY tools/mkdesign.py -->\n"
 p = os.path.join(ROOT, "DESIGN.md")
 t = open(p).read().split(MARK)[0].rstrip() + "\n"
 out = [t, MARK, "\n# Part II — as built\n\n", open(os.path.join(ROOT, "design_notes", "00_overview.md")).read(), "\n"]
+# status table
+import importlib, json, sys
+sys.path.insert(0, ROOT)
+props = [json.loads(l) for l in open(os.path.join(ROOT, "properties.jsonl"))]
+kf = json.load(open(os.path.join(ROOT, "known_findings.json")))["findings"]
+seeds = {}
+for d in glob.glob(os.path.join(ROOT, "seeded", "*", "meta.json")):
+    m = json.load(open(d)); seeds.setdefault(m["property"], []).append(m)
+rows = ["## Status per property (generated)\n", "| id | title | theorems audited | findings fixed / open | seeded changes caught |", "|---|---|---|---|---|"]
+for pr in props:
+    pid = pr["id"]
+    try:
+        mod = importlib.import_module("checks." + pid.lower()); nth = len(getattr(mod, "THEOREMS", []))
+    except Exception:
+        nth = 0
+    fx = sum(1 for f in kf if f["property"] == pid and f["status"] == "fixed"); op = [f["id"] for f in kf if f["property"] == pid and f["status"] == "open"]
+    ss = seeds.get(pid, [])
+    caught = sum(1 for m in ss if any(r["caught"] for r in m.get("ran", [])))
+    rows.append("| %s | %s | %d | %d / %s | %d of %d |" % (pid, pr["title"], nth, fx, ", ".join(op) or "0", caught, len(ss)))
+out += ["\n".join(rows), "\n\n"]
 if os.path.exists(os.path.join(ROOT, "design_notes", "01_seeded.md")):
     out += [open(os.path.join(ROOT, "design_notes", "01_seeded.md")).read(), "\n"]
 for f in sorted(glob.glob(os.path.join(ROOT, "design_notes", "C*.md"))):
